@@ -775,6 +775,9 @@ fn step_count_law(rep: &mut Report, m: Method, q: f64) {
         let (sx, sy) = (pts.iter().map(|p| p.0).sum::<f64>(), pts.iter().map(|p| p.1).sum::<f64>());
         let (sxx, sxy) = (pts.iter().map(|p| p.0 * p.0).sum::<f64>(), pts.iter().map(|p| p.0 * p.1).sum::<f64>());
         let slope = (n * sxy - sx * sy) / (n * sxx - sx * sx);
+        if std::env::var("VERIF_DEBUG").is_ok() {
+            eprintln!("stepcount {} {}: {:?} slope {:.4}", mname(m), p.name, counts, slope);
+        }
         rep.validated += 1;
         rep.tags.entry("step-count-law".into()).and_modify(|c| *c += 1).or_insert(1);
         if !(slope >= 0.4 / q && slope <= 1.3 / q) {
